@@ -50,10 +50,10 @@ def rng_for(p):
 
 
 def uv(ctx, s, z, t, Tbc):
-    # the positions are passed in a scrambled order (fixed permutation of the request) and the records put back: the
+    # the positions are passed in a scrambled order (a permutation determined by the request) and the records put back: the
     # property is about the value at a position, whatever the order of the request
     z = np.atleast_1d(np.asarray(z, float))
-    perm = np.random.default_rng(len(z)).permutation(len(z))
+    perm = np.random.default_rng([len(z), int(abs(float(z[0])) * 1e9) % (2 ** 31), int(abs(float(t)) * 1e18) % (2 ** 31)]).permutation(len(z))
     sol = ctx.call(s, z[perm], t)
     inv = np.argsort(perm)
     return (np.asarray(sol["temperature_rad"], float)[inv] / Tbc) ** 4, (np.asarray(sol["temperature_mat"], float)[inv] / Tbc) ** 4
@@ -123,6 +123,16 @@ def run(ctx, p):
         U, V = uv(ctx, s, z_of(np.concatenate([[xf, xf + 10.0, xf + 20.0], xf + rng_for(p).uniform(0.0, 20.0, 38)])), t, Tbc)
         m = max(float(np.max(np.abs(U))), float(np.max(np.abs(V))))
         ctx.observe("so.decay", "SuOlson", m <= 5e-5, branch=br, measure=m, tol=5e-5, detail=dict(det, x=xf, U=U.tolist(), V=V.tolist()))
+        # a whole profile in one (scrambled) request - points behind the wave together with points far ahead of it - gives
+        # each point the value it has when the points behind the wave are asked for on their own
+        near = np.linspace(0.05, max(0.5 * xw, 0.2), 6)
+        Un, Vn = uv(ctx, s, z_of(near), t, Tbc)
+        # (far ahead: beyond the wave and beyond 16 diffusion lengths sqrt(tau/eps), where nothing has arrived yet)
+        far = max(xf, 17.0 * math.sqrt(tau / eps)) + np.array([0.0, 5.0, 12.0, 19.0, 26.0, 33.0, 47.0])
+        Ua, Va = uv(ctx, s, z_of(np.concatenate([near, far])), t, Tbc)
+        dmix = max(float(np.max(np.abs(Ua[:6] - Un))), float(np.max(np.abs(Va[:6] - Vn))))
+        ctx.observe("so.order", "SuOlson", dmix <= 1e-9, branch="profile with far-field points " + br, measure=dmix, tol=1e-9,
+                    detail=dict(det, near=near.tolist(), alone=Un.tolist(), in_profile=Ua[:6].tolist()))
 
 
 UNITS = [Unit("probe", gen, run, quick=96, thorough=1600, min_nontrivial=60)]
